@@ -240,6 +240,21 @@ func PopulateStructFields(m map[string]any, data any) {
 			}
 		}
 	}
+
+	// Fields promoted from embedded structs are reachable by their Go name
+	// (as Stack.Lookup finds them); Go's own rules decide which field a name
+	// selects, so a shallower field of the same name is never replaced.
+	for _, f := range reflect.VisibleFields(rt) {
+		if len(f.Index) < 2 || !f.IsExported() {
+			continue
+		}
+		if _, taken := m[f.Name]; taken {
+			continue
+		}
+		if fv, err := rv.FieldByIndexErr(f.Index); err == nil {
+			m[f.Name] = fv.Interface()
+		}
+	}
 }
 
 // IsSlice reports whether v is a slice or array.
